@@ -304,18 +304,29 @@ func (x *lbExt) checkAttempts() {
 		}
 		e.Probe("attempt_attributed_to_pick")
 		s := pk.sc
-		if pk.hdrConn < len(x.w.net.Pairs) && x.w.net.Pairs[pk.hdrConn].Addr != s.addr {
+		if pk.hdrConn < len(x.w.net.Pairs) && !s.had(x.w.net.Pairs[pk.hdrConn].Addr, pk.hdrSeq) {
 			e.Violate("attempt_wrong_subconn", "pick %d chose sc%d (%s) but the attempt went over connection %d to %s", pk.id, s.id, s.addr, pk.hdrConn, x.w.net.Pairs[pk.hdrConn].Addr)
 		}
 		if s.inst.closed && s.inst.closedSeq < x.quiesceSeq {
 			continue // the listener log of an instance closed by idle mode is incomplete
 		}
-		// lower bound of the j-th READY period: the j-th successful dial to the
-		// SubConn's address since it was created (every READY needs its own)
+		// lower bound of the j-th READY period: the j-th successful dial to one
+		// of the SubConn's addresses since it was created (every READY needs its
+		// own); for a health-checked SubConn the j-th time a backend at one of
+		// its addresses reported SERVING (or ended the Watch stream with
+		// UNIMPLEMENTED): every READY needs its own, too
 		var okDials []uint64
-		for _, d := range x.w.net.Dials {
-			if d.Addr == s.addr && d.Result == "ok" && d.Seq > s.createdSeq {
-				okDials = append(okDials, d.Seq)
+		if s.hc {
+			for _, c := range x.hcauses {
+				if c.seq > s.createdSeq && s.had(c.addr, ^uint64(0)) {
+					okDials = append(okDials, c.seq)
+				}
+			}
+		} else {
+			for _, d := range x.w.net.Dials {
+				if d.Result == "ok" && d.Seq > s.createdSeq && s.had(d.Addr, ^uint64(0)) {
+					okDials = append(okDials, d.Seq)
+				}
 			}
 		}
 		ok := false
@@ -341,7 +352,7 @@ func (x *lbExt) checkAttempts() {
 			}
 		}
 		if !ok {
-			e.Violate("attempt_on_nonready_subconn", "pick %d (rpc %d) chose sc%d which was not READY at any time between the Pick and the attempt's HEADERS (listener log)", pk.id, pk.rpcID(), s.id)
+			e.Violate("attempt_on_nonready_subconn", "pick %d (rpc %d) chose sc%d which was not READY at any time between the Pick and the attempt's HEADERS (listener log%s)", pk.id, pk.rpcID(), s.id, map[bool]string{true: ", health reports of its backend"}[s.hc])
 		} else if pk.kind == "notready" || pk.kind == "any" || pk.kind == "shut" {
 			e.Probe("stale_snapshot_subconn_was_ready")
 		}
@@ -457,6 +468,27 @@ func (x *lbExt) checkSubConnsAtQuiescence() {
 					last = ev.seq
 				}
 			}
+			if i.addrUpdates > 0 {
+				// the instance moved SubConns between addresses: the connection
+				// of a READY SubConn is one to an address of its current list,
+				// dialled before READY was reported (an address may have
+				// belonged to another SubConn earlier)
+				dialled, open := false, false
+				for _, d := range x.w.net.Dials {
+					if d.Result == "ok" && d.Seq > s.createdSeq && d.Seq < last && lbHasAddr(s.cur(), d.Addr) {
+						dialled = true
+						if !x.w.net.Pairs[d.Conn].Closed {
+							open = true
+						}
+					}
+				}
+				if dialled && !open {
+					e.Violate("sc_disconnect_not_reported", "sc%d: last reported state is READY but every connection to %s is closed", s.id, s.addr)
+				} else if dialled {
+					e.Probe("sc_ready_at_quiescence")
+				}
+				continue
+			}
 			if _, conn, ok := x.lastOKDial(s.addr, last); ok && conn < len(x.w.net.Pairs) {
 				if x.w.net.Pairs[conn].Closed {
 					e.Violate("sc_disconnect_not_reported", "sc%d: last reported state is READY but its connection %d is closed", s.id, conn)
@@ -485,10 +517,41 @@ func (x *lbExt) checkSubConnLogs() {
 			resetBackoff = true
 		}
 	}
-	count := func(addr string, st connectivity.State, upto uint64) int {
+	// Dials are attributed by address. UpdateAddresses moves SubConns between
+	// addresses, so causes are counted per group of addresses connected
+	// through the lists any SubConn ever had (without UpdateAddresses: per
+	// address). A group with a health-checked SubConn is not counted: its READY
+	// and TRANSIENT_FAILURE reports follow the backend's health status.
+	group := map[string]string{}
+	var root func(a string) string
+	root = func(a string) string {
+		if p, ok := group[a]; ok && p != a {
+			r := root(p)
+			group[a] = r
+			return r
+		}
+		group[a] = a
+		return a
+	}
+	hcGroup := map[string]bool{}
+	for _, o := range x.scs {
+		for _, h := range o.addrHist {
+			for _, a := range h.addrs {
+				if ra, rb := root(o.addrHist[0].addrs[0]), root(a); ra != rb {
+					group[rb] = ra
+				}
+			}
+		}
+	}
+	for _, o := range x.scs {
+		if o.hc {
+			hcGroup[root(o.addrHist[0].addrs[0])] = true
+		}
+	}
+	count := func(g string, st connectivity.State, upto uint64) int {
 		n := 0
 		for _, o := range x.scs {
-			if o.addr != addr {
+			if root(o.addrHist[0].addrs[0]) != g {
 				continue
 			}
 			for _, ev := range o.log {
@@ -503,6 +566,7 @@ func (x *lbExt) checkSubConnLogs() {
 		prev := connectivity.Idle
 		var prevT time.Time
 		nConn := 0
+		g := root(s.addrHist[0].addrs[0])
 		for j, ev := range s.log {
 			if ev.late {
 				e.Violate("sc_update_after_close", "sc%d: %v delivered after the policy was closed", s.id, ev.state)
@@ -513,11 +577,26 @@ func (x *lbExt) checkSubConnLogs() {
 				continue
 			}
 			e.Probe("sc_edge_" + prev.String() + "_" + ev.state.String())
+			if s.hc {
+				// Client-side health checking (gRPC health checking protocol)
+				// moves a connected SubConn between READY and TRANSIENT_FAILURE
+				// with the backend's health status; the statement's transition
+				// rules describe the connection state machine and are not
+				// applied to such a SubConn.
+				e.Probe("sc_edge_healthchecked")
+				prev, prevT = ev.state, ev.t
+				continue
+			}
+			// READY -> CONNECTING is a step of the state machine only after
+			// UpdateAddresses (connected to an address that is no longer listed)
+			nu := s.updates(ev.seq)
 			switch {
 			case ev.state == connectivity.Ready && prev != connectivity.Connecting:
 				e.Violate("sc_illegal_transition", "sc%d: %v -> READY (update %d)", s.id, prev, j)
 			case prev == connectivity.TransientFailure && ev.state != connectivity.Idle && ev.state != connectivity.Shutdown:
 				e.Violate("sc_illegal_transition", "sc%d: TRANSIENT_FAILURE -> %v (update %d)", s.id, ev.state, j)
+			case prev == connectivity.Ready && ev.state == connectivity.Connecting && nu > 0:
+				e.Probe("sc_reconnect_after_update_addresses")
 			case ev.state != connectivity.Shutdown && !lbEdgeOK[[2]connectivity.State{prev, ev.state}]:
 				e.Violate("sc_out_of_order", "sc%d: update %d reports %v after %v, which is not a step of the subchannel state machine (updates lost or reordered)", s.id, j, ev.state, prev)
 			}
@@ -530,27 +609,37 @@ func (x *lbExt) checkSubConnLogs() {
 						nc++
 					}
 				}
-				if nConn > nc {
-					e.Violate("sc_update_without_cause", "sc%d: %d CONNECTING updates but the policy called Connect only %d times before", s.id, nConn, nc)
+				if nConn > nc+nu {
+					e.Violate("sc_update_without_cause", "sc%d: %d CONNECTING updates but the policy called Connect only %d times and UpdateAddresses %d times before", s.id, nConn, nc, nu)
 				}
 			case connectivity.Ready:
+				if hcGroup[g] {
+					break
+				}
 				nd := 0
 				for _, d := range x.w.net.Dials {
-					if d.Addr == s.addr && d.Result == "ok" && d.Seq < ev.seq {
-						nd++
+					if d.Result == "ok" && d.Seq < ev.seq {
+						if _, ok := group[d.Addr]; ok && root(d.Addr) == g {
+							nd++
+						}
 					}
 				}
-				if nr := count(s.addr, connectivity.Ready, ev.seq); nr > nd {
+				if nr := count(g, connectivity.Ready, ev.seq); nr > nd {
 					e.Violate("sc_update_without_cause", "sc%d (%s): %d READY updates but only %d successful dials before", s.id, s.addr, nr, nd)
 				}
 			case connectivity.TransientFailure:
+				if hcGroup[g] {
+					break
+				}
 				nd := 0
 				for _, d := range x.w.net.Dials {
-					if d.Addr == s.addr && d.Seq < ev.seq {
-						nd++
+					if d.Seq < ev.seq {
+						if _, ok := group[d.Addr]; ok && root(d.Addr) == g {
+							nd++
+						}
 					}
 				}
-				if nf := count(s.addr, connectivity.TransientFailure, ev.seq); nf > nd {
+				if nf := count(g, connectivity.TransientFailure, ev.seq); nf > nd {
 					e.Violate("sc_update_without_cause", "sc%d (%s): %d TRANSIENT_FAILURE updates but only %d dials before", s.id, s.addr, nf, nd)
 				}
 			case connectivity.Idle:
